@@ -62,6 +62,9 @@ def _merge_stubs_members(obj: Module | Class, stubs: Module | Class) -> None:
             if stub_member.is_alias:
                 continue
             obj_member = obj.get_member(member_name)
+            if obj_member.is_alias and not obj_member.resolved:
+                # Merging must not trigger alias resolution: only merge into targets of already resolved aliases.
+                continue
             with suppress(AliasResolutionError, CyclicAliasError):
                 # An object's canonical location can differ from its equivalent stub location.
                 # Devs usually declare stubs at the public location of the corresponding object,
